@@ -47,6 +47,9 @@ pub enum TState {
 }
 
 pub struct SimThread {
+    /// position for schedule recording: index of the op being executed, steps made inside it
+    pub op_idx: u32,
+    pub op_step: u32,
     pub state: TState,
     pub phase: u32,
     pub steps: u64,
@@ -74,6 +77,7 @@ pub struct Stall {
     pub site: u32,
     pub nth: u32,
     pub k: u64,
+    pub release_signal: u32,
     pub only_unpinned: bool,
     // dynamic
     pub hits: u32,
@@ -114,7 +118,7 @@ pub struct Sim {
     pub stats: Stats,
     pub hash: u64,
     pub ileave_hash: u64,
-    pub trace: Vec<(u32, u32, u32)>, // ring of (seq low, tid, site)
+    pub trace: Vec<(u32, u32, u32, u64)>, // ring of (seq low, tid, site, value)
     pub trace_pos: usize,
     pub signals: Vec<bool>,
     pub default_prop: String,
@@ -151,10 +155,23 @@ pub struct NoMonitor;
 impl Monitor for NoMonitor {}
 
 pub struct ReplayCursor {
-    pub script: Vec<(u32, u32)>,
+    pub script: Vec<(u32, u32, u32, u32)>,
     pub idx: usize,
-    pub used: u32,
     pub diverged: u64,
+}
+
+pub const OP_EXIT: u32 = u32::MAX;
+pub const MAIN32: u32 = u32::MAX - 1;
+
+/// Tell the scheduler that the calling thread starts its op number `idx`.
+pub fn set_op(idx: u32) {
+    let me = my_tid();
+    if me == NONE || !sim_installed() {
+        return;
+    }
+    let t = &mut sim().threads[me];
+    t.op_idx = idx;
+    t.op_step = 0;
 }
 
 pub struct ThreadSpec {
@@ -169,7 +186,7 @@ pub struct SimConfig {
     pub strategy: Strategy,
     pub stall: Option<Stall>,
     pub step_cap: u64,
-    pub replay: Option<Vec<(u32, u32)>>,
+    pub replay: Option<Vec<(u32, u32, u32, u32)>>,
     pub default_prop: String,
     pub buggify_p: f64,
     pub buggify_sites: [bool; 8],
@@ -274,26 +291,14 @@ impl Sim {
         if cands.is_empty() {
             return MAIN;
         }
-        if let Some(rc) = self.replay.as_mut() {
-            let fallback = if cands.contains(&me) { me } else { cands[0] };
-            if rc.idx >= rc.script.len() {
-                return fallback;
-            }
-            let (want, count) = rc.script[rc.idx];
-            rc.used += 1;
-            if rc.used >= count {
-                rc.idx += 1;
-                rc.used = 0;
-            }
-            if cands.contains(&(want as usize)) {
-                return want as usize;
-            }
-            rc.diverged += 1;
-            return fallback;
+        if self.replay.is_some() {
+            return self.pick_replay(me, site, &cands);
         }
         // stall fault
         if self.stall.is_some() {
             let epoch = self.now_epoch();
+            let mut fired: Option<&'static str> = None;
+            let signals = &self.signals;
             let st = self.stall.as_mut().unwrap();
             if !st.done {
                 if st.frozen_at_epoch.is_none() && me == st.victim && (st.site == NSITES as u32 || st.site == site) {
@@ -303,18 +308,22 @@ impl Sim {
                     }
                 }
                 if let Some(e0) = st.frozen_at_epoch {
-                    if epoch >= e0 + st.k {
+                    let by_signal = st.release_signal != 0 && signals.get(st.release_signal as usize).copied().unwrap_or(false);
+                    if by_signal || (st.release_signal == 0 && epoch >= e0 + st.k) {
                         st.done = true;
-                        let k = st.k;
-                        self.fault(if k >= 16 { "stall_ge16" } else if k >= 3 { "stall_3_15" } else { "stall_lt3" });
+                        let k = epoch.saturating_sub(e0);
+                        fired = Some(if k >= 16 { "stall_ge16_epochs" } else if k >= 3 { "stall_3_15_epochs" } else { "stall_lt3_epochs" });
                     } else if cands.len() > 1 || !cands.contains(&st.victim) {
                         cands.retain(|&t| t != st.victim);
                     } else {
                         // nobody else can run: release early (also a legal schedule)
                         st.done = true;
-                        self.fault("stall_released_early");
+                        fired = Some("stall_released_early");
                     }
                 }
+            }
+            if let Some(f) = fired {
+                self.fault(f);
             }
         }
         if cands.len() == 1 {
@@ -359,8 +368,61 @@ impl Sim {
         }
     }
 
-    fn log_decision(&mut self, next: usize) {
-        shm::sched_push(next as u32);
+    /// Scripted scheduler: follow the recorded context switches by *position* (thread, op index,
+    /// step within op), which survives removal of ops and threads during minimisation. When the
+    /// script is exhausted or names a thread that cannot run: continue current, else lowest id.
+    fn pick_replay(&mut self, me: usize, site: u32, cands: &[usize]) -> usize {
+        let forced = site == SITE_EXIT || site == SITE_BLOCK || me == MAIN || !cands.contains(&me);
+        let fallback = if cands.contains(&me) { me } else { cands[0] };
+        let (pos_op, pos_step) = if me < self.threads.len() { (self.threads[me].op_idx, self.threads[me].op_step) } else { (0, 0) };
+        let states: Vec<bool> = (0..self.threads.len()).map(|t| cands.contains(&t)).collect();
+        let rc = self.replay.as_mut().unwrap();
+        loop {
+            let Some(&(from, op, step, to)) = rc.script.get(rc.idx) else { return fallback };
+            let from_me = (me == MAIN && from == MAIN32) || from as usize == me;
+            if !from_me {
+                // the script expects another thread to be running
+                let f = from as usize;
+                if from != MAIN32 && f < states.len() && states[f] {
+                    // get back on script
+                    rc.diverged += 1;
+                    return f;
+                }
+                // that thread cannot run (finished/blocked/removed): the entry is stale
+                rc.idx += 1;
+                rc.diverged += 1;
+                continue;
+            }
+            if forced || (pos_op, pos_step) >= (op, step) {
+                rc.idx += 1;
+                let t = to as usize;
+                if t < states.len() && states[t] {
+                    return t;
+                }
+                if to != MAIN32 {
+                    rc.diverged += 1;
+                }
+                if forced {
+                    return fallback;
+                }
+                continue;
+            }
+            return fallback;
+        }
+    }
+
+    fn log_decision(&mut self, me: usize, site: u32, next: usize) {
+        if next == me && site != SITE_EXIT && site != SITE_BLOCK {
+            return;
+        }
+        let (from, op, step) = if me == MAIN {
+            (MAIN32, 0, 0)
+        } else {
+            let t = &self.threads[me];
+            (me as u32, if site == SITE_EXIT { OP_EXIT } else { t.op_idx }, t.op_step)
+        };
+        let to = if next == MAIN { MAIN32 } else { next as u32 };
+        shm::sched_push(from, op, step, to);
     }
 
     /// One simulator step made by thread `me` at `site`.
@@ -370,10 +432,16 @@ impl Sim {
         self.seq += 1;
         self.stats.steps += 1;
         self.threads[me].steps += 1;
+        self.threads[me].op_step += 1;
         let si = (site as usize).min(NSITES - 1);
         self.stats.site_hits[si] += 1;
         let tp = self.trace_pos % self.trace.len();
-        self.trace[tp] = (self.seq as u32, me as u32, site);
+        let val = match site {
+            51 | 52 => (if site == 52 { b } else { a }) as u64,
+            50 if addr != 0 => crate::shadow::read_word(addr) as u64,
+            _ => 0,
+        };
+        self.trace[tp] = (self.seq as u32, me as u32, site, val);
         self.trace_pos += 1;
         self.hash = mix(&[self.hash, me as u64, site as u64]);
         if self.uaf_check && addr != 0 && alloc::is_freed(addr) {
@@ -384,7 +452,7 @@ impl Sim {
         if let Some(f) = self.clock {
             let e = f();
             if e != self.last_epoch {
-                self.stats.epoch_advances += e.wrapping_sub(self.last_epoch);
+                self.stats.epoch_advances = self.stats.epoch_advances.wrapping_add(e.wrapping_sub(self.last_epoch));
                 self.last_epoch = e;
             }
         }
@@ -393,7 +461,7 @@ impl Sim {
             self.finish(Outcome::StepCap);
         }
         let next = self.pick_next(me, site);
-        self.log_decision(next);
+        self.log_decision(me, site, next);
         if next != me {
             self.stats.switches += 1;
             self.ileave_hash = mix(&[self.ileave_hash, me as u64, site as u64, next as u64]);
@@ -424,7 +492,7 @@ impl Sim {
         self.threads[me].state = TState::Blocked(k);
         self.seq += 1;
         let next = self.pick_next(me, SITE_BLOCK);
-        self.log_decision(next);
+        self.log_decision(me, SITE_BLOCK, next);
         if next == me {
             return;
         }
@@ -456,16 +524,18 @@ impl Sim {
         self.seq += 1;
         self.hash = mix(&[self.hash, tid as u64, SITE_EXIT as u64]);
         let next = self.pick_next(tid, SITE_EXIT);
-        self.log_decision(next);
+        self.log_decision(tid, SITE_EXIT, next);
         self.cur = next;
         hand_to(self, next);
     }
 
     pub fn violation(&mut self, prop: &str, kind: &str, signature: &str, detail: &str) -> ! {
+        // `prop` may list several properties ("C05,C01"): the first names the signature
+        let first = prop.split(',').next().unwrap_or(prop);
         let v = Violation {
             prop: prop.to_string(),
             kind: kind.to_string(),
-            signature: format!("{}/{}", prop, signature),
+            signature: format!("{}/{}", first, signature),
             detail: detail.to_string(),
             seq: self.seq,
         };
@@ -481,8 +551,13 @@ impl Sim {
         let mut out = Vec::new();
         let start = self.trace_pos.saturating_sub(n);
         for i in start..self.trace_pos {
-            let (s, t, site) = self.trace[i % n];
-            out.push(J::Str(format!("{}:t{}:{}", s, t, site_name(site))));
+            let (s, t, site, val) = self.trace[i % n];
+            if (50..=52).contains(&site) {
+                // epoch words: value and pinned bit
+                out.push(J::Str(format!("{}:t{}:{}={}{}", s, t, site_name(site), val >> 1, if val & 1 == 1 { "p" } else { "" })));
+            } else {
+                out.push(J::Str(format!("{}:t{}:{}", s, t, site_name(site))));
+            }
         }
         J::Arr(out)
     }
@@ -500,7 +575,8 @@ impl Sim {
             }
             Outcome::Violation(v) => {
                 j.put("outcome", "violation");
-                j.put("prop", v.prop.as_str());
+                j.put("prop", v.prop.split(',').next().unwrap_or(""));
+                j.put("props", J::Arr(v.prop.split(',').map(|p| J::Str(p.to_string())).collect()));
                 j.put("kind", v.kind.as_str());
                 j.put("signature", v.signature.as_str());
                 j.put("detail", v.detail.as_str());
@@ -603,6 +679,7 @@ pub fn hook_buggify(site: u32) -> bool {
     if fire {
         s.buggify_streak += 1;
         s.buggify_fired.push(s.buggify_calls);
+        shm::bug_push(s.buggify_calls);
         s.fault("cas_weak_spurious");
     } else {
         s.buggify_streak = 0;
@@ -635,7 +712,7 @@ pub fn run(cfg: SimConfig, mon: Box<dyn Monitor>, specs: Vec<ThreadSpec>, clock:
     let _ = rng.next();
     let threads = specs
         .iter()
-        .map(|s| SimThread { state: TState::Runnable, phase: s.phase, steps: 0, exiting: false, name: s.name })
+        .map(|s| SimThread { op_idx: 0, op_step: 0, state: TState::Runnable, phase: s.phase, steps: 0, exiting: false, name: s.name })
         .collect();
     let s = Box::new(Sim {
         threads,
@@ -647,11 +724,11 @@ pub fn run(cfg: SimConfig, mon: Box<dyn Monitor>, specs: Vec<ThreadSpec>, clock:
         strategy: cfg.strategy,
         stall: cfg.stall,
         step_cap: cfg.step_cap,
-        replay: cfg.replay.map(|script| ReplayCursor { script, idx: 0, used: 0, diverged: 0 }),
+        replay: cfg.replay.map(|script| ReplayCursor { script, idx: 0, diverged: 0 }),
         stats: Stats { site_hits: vec![0; NSITES], ..Default::default() },
         hash: 0,
         ileave_hash: 0,
-        trace: vec![(0, 0, 0); 200],
+        trace: vec![(0, 0, 0, 0); 200],
         trace_pos: 0,
         signals: vec![false; 16],
         default_prop: cfg.default_prop,
@@ -705,7 +782,7 @@ pub fn run(cfg: SimConfig, mon: Box<dyn Monitor>, specs: Vec<ThreadSpec>, clock:
     // start: pick the first thread
     let s = sim();
     let first = s.pick_next(MAIN, SITE_USER);
-    s.log_decision(first);
+    s.log_decision(MAIN, SITE_USER, first);
     if first != MAIN {
         s.cur = first;
         hand_to(s, first);
